@@ -217,7 +217,7 @@ def run(ctx):
         else ("pre" if r["obs_h"] == r["pre_h"] else "post" if r["obs_h"] == r["post_h"] else "neither") for r in crash))
     for r in crash[:2] + [x for x in crash if any(v == ["unreadable"] for v in x["view"]["objs"].values())][:2]:
         ctx.sample({k: r[k] for k in ("stack", "kind", "k", "points", "view", "files")})
-    ctx.level = "model_checking+conformance"
+    ctx.level = "model_checking"
     ctx.assumptions += [
         "crash = SIGKILL of the process at a verifhook point; the page cache survives (no power loss / fsync ordering)",
         "hook points counted only for the write transaction of the operation under test (read-only transactions ignored)",
